@@ -181,6 +181,8 @@ class BodyInfo:
                     p = op_place(t["op"])
                     if p is not None and not p["p"]:
                         lty = body.local_tys(p["l"])
+                    elif p is not None:
+                        lty = self._projected_prim(p)
                     if lty == "bool" or all(v in (0,) for v, _ in t["vals"]) and lty == "bool":
                         ent["kind"] = "bool"
                         ent["subject"] = term
@@ -201,6 +203,23 @@ class BodyInfo:
                 out.append(ent)
             self._switch = out
         return self._switch
+
+    def _projected_prim(self, p):
+        """name of the primitive type of a projected place (`*this.consumed` -> 'bool'), or None"""
+        F = self.body.facts
+        ty = None
+        for e in p["p"]:
+            if isinstance(e, dict) and "f" in e and isinstance(e.get("ty"), int):
+                ty = e["ty"]
+            elif e == "*" and ty is not None:
+                t = F.types[ty]
+                ty = t.get("ty") if t["k"] in ("ref", "ptr") and isinstance(t.get("ty"), int) else None
+            elif e != "*":
+                ty = None
+        if ty is None:
+            return None
+        t = F.types[ty]
+        return t.get("name") if t["k"] == "prim" else None
 
     def _discr_names(self, op):
         """variant names for the discriminant read feeding this switch operand."""
@@ -379,6 +398,11 @@ class BodyInfo:
     # ------------------------------------------------------------------ path queries
     def reach_from_edges(self, edges, avoid_blocks=(), stop_blocks=(), avoid_edges=()):
         starts = [b for _, b in edges]
+        # switch edges that contradict the constant every definition reachable from here gave the tested carrier local
+        # (`break Some(err)` .. `if let Some(err) = failure`) are not paths
+        inf = self.infeasible_from(starts) if starts else []
+        if inf:
+            avoid_edges = list(avoid_edges) + inf
         return self.body.reach(starts, avoid_blocks=avoid_blocks, stop_blocks=stop_blocks, avoid_edges=avoid_edges)
 
     def guarded_by(self, block, edges, since=None, _depth=0):
@@ -398,8 +422,8 @@ class BodyInfo:
             return True
         if since is not None or _depth >= 2 or not edges:
             return False
-        for e, defs in self.bool_phi_switches:
-            for lab in (True, False):
+        for e, defs in list(self.bool_phi_switches) + list(self.variant_phi_switches):
+            for lab in ((True, False) if e["kind"] == "bool" else [l for l in e["edges"] if l != "otherwise"]):
                 ed = self.edge(e, lab)
                 if not ed or ed in edges:
                     continue
@@ -439,11 +463,78 @@ class BodyInfo:
         self._bool_phi = out
         return out
 
+    @property
+    def variant_phi_switches(self):
+        """[(switch entry, [(def block, variant label)])] for discriminant switches on a local all of whose live
+        definitions are literal enum aggregates (`let found = loop { .. break Some(x); .. break None };`) and whose
+        address is never taken mutably."""
+        c = getattr(self, "_variant_phi", None)
+        if c is not None:
+            return c
+        out = []
+        body = self.body
+        for e in self.switches:
+            s = e["subject"]
+            if e["kind"] != "discr" or s[0] != "phi":
+                continue
+            L = s[1]
+            defs = []
+            ok = True
+            for d in body.defs.get(L, []):
+                if d[0] not in body.reachable or body.is_cleanup(d[0]):
+                    continue
+                if d[2] == "assign" and d[3]["k"] == "agg" and d[3].get("ak") == "adt" and d[3].get("vname"):
+                    defs.append((d[0], d[3]["vname"]))
+                else:
+                    ok = False
+            if ok and defs:
+                for b in body.reachable:
+                    for st in body.stmts(b):
+                        if st["k"] == "assign" and st["rv"]["k"] == "ref" and st["rv"].get("mut") and st["rv"]["place"]["l"] == L \
+                                and "*" not in st["rv"]["place"]["p"]:
+                            ok = False
+            if ok and defs:
+                out.append((e, defs))
+        self._variant_phi = out
+        return out
+
+    def infeasible_from(self, starts):
+        """Switch edges that cannot be taken on any path starting at `starts`: a switch on a constant-defined local
+        (boolean or enum carrier) all of whose definitions reachable from `starts` assign the same value v, and which
+        cannot be reached from `starts` without passing one of them, only takes its v edge."""
+        body = self.body
+        out = []
+        R = None
+        for e, defs in list(self.bool_phi_switches) + list(self.variant_phi_switches):
+            if R is None:
+                R = body.reach(starts)
+            if e["block"] not in R:
+                continue
+            inR = [(b, v) for b, v in defs if b in R]
+            vals = {v for b, v in inR}
+            if len(vals) != 1:
+                continue
+            v = next(iter(vals))
+            if e["block"] in body.reach(starts, avoid_blocks=[b for b, _ in inR]) and e["block"] not in [b for b, _ in inR]:
+                continue
+            for lab, tb in e["edges"].items():
+                if tb is None or lab == v:
+                    continue
+                if e["kind"] == "bool" or lab != "otherwise" or v in e["edges"]:
+                    out.append((e["block"], tb))
+        return out
+
     def must_reach(self, starts, goal_blocks, exit_blocks):
         """Every path from `starts` hits a goal block before any exit block: i.e. no exit block is
-        reachable when goal blocks are removed.  Also returns the offending exits."""
+        reachable when goal blocks are removed.  Also returns the offending exits.  Paths through switch edges that
+        contradict the constant every reaching definition gave the tested local are not paths."""
         r = self.body.reach(starts, avoid_blocks=goal_blocks, stop_blocks=exit_blocks)
         bad = [b for b in exit_blocks if b in r]
+        if bad:
+            inf = self.infeasible_from(starts)
+            if inf:
+                r = self.body.reach(starts, avoid_blocks=goal_blocks, stop_blocks=exit_blocks, avoid_edges=inf)
+                bad = [b for b in exit_blocks if b in r]
         return (not bad), bad
 
     def assigns_to_return(self):
